@@ -35,7 +35,7 @@ COMPONENTS = {"real": ["clustering/kmeans.py (KMeans.fit, kmeansplusplus_centers
               "stub": ["multiprocessing.Pool -> sim/simpool.py (seeded pool size, chunking, completion order; pickling isolation)",
                        "np.random / random seeds (owned by the simulator)", "monitor_distances callback (environment: cancels at a seeded iteration)",
                        "reference DTW for the nearest-mean oracle: sim/models/dtw_ref.py"]}
-ASSUMPTIONS = ["bounds: k 1..5, n = k+1..12 series of length 2..8, ndim 1..2, max_it 0..5, max_dba_it 1..3, thr in {default, 1e-4, 0.05, 0.5, 2}, data amplitude in {1, 1e-3, 1e-4}",
+ASSUMPTIONS = ["bounds: mostly k 1..5, n = k+1..12 series of length 2..8 (one history in 16: k 4..8, n up to 25, length <= 13, max_it <= 9), ndim 1..2, max_it 0..5, max_dba_it 1..3, thr in {default, 1e-4, 0.05, 0.5, 2}, data amplitude in {1, 1e-3, 1e-4}",
                "empty clusters in the returned dict are allowed (with fewer distinct series than k they are unavoidable); keys must still be exactly 0..k-1",
                "nearest-mean comparison uses rel. tol 1e-9 on the reference distances; serial vs parallel comparison is exact (float bits)"]
 
@@ -46,16 +46,17 @@ def gen_history(st):
     ndim = rng.below(5) == 0
     data = []
     kmax = 1
+    big = rng.below(16) == 0          # swarm sizing: one history in 16 is larger (more series, larger k, longer series, more iterations)
     for _ in range(ndata):
-        k = 1 + rng.below(5)
+        k = 4 + rng.below(5) if big else 1 + rng.below(5)
         kmax = max(kmax, k)
-        n = k + 1 + rng.below(12 - k)
+        n = k + 6 + rng.below(12) if big else k + 1 + rng.below(12 - k)
         distinct = 1 + rng.below(n) if rng.below(2) else n     # heavy duplicate rates
         equal = rng.below(2) == 0
-        L0 = 2 + rng.below(7)
+        L0 = 2 + rng.below(12 if big else 7)
         base = []
         for _i in range(distinct):
-            L = L0 if equal else 2 + rng.below(7)
+            L = L0 if equal else 2 + rng.below(12 if big else 7)
             if ndim:
                 base.append([[float(rng.below(5)), float(rng.below(3))] for _ in range(L)])
             else:
@@ -79,7 +80,7 @@ def gen_history(st):
         elif rng.below(2):
             opts["use_c"] = False
         init = rng.choice(["kmeanspp", "kmeanspp", "random", "kmeanspp_sample"])
-        models.append({"op": "new", "model": mi, "data_k": rng.below(ndata), "max_it": rng.below(6), "max_dba_it": 1 + rng.below(3),
+        models.append({"op": "new", "model": mi, "data_k": rng.below(ndata), "max_it": rng.below(10 if big else 6), "max_dba_it": 1 + rng.below(3),
                        "thr": rng.choice([None, None, 0.0001, 0.05, 0.5, 2.0]),
                        "drop_stddev": rng.choice([None, None, 1, 2, 3]), "init": init, "sample": 1 + rng.below(3), "opts": opts})
     programs = [[], []]
